@@ -2,7 +2,7 @@
 update side: update wrappers (incl. vec_i passed through), mad kernels store only through
 parity pointers and read the source only through src; gf_vect_mul kernels."""
 from common import Report
-import provenance, ecwrap
+import provenance, ecwrap, gftype
 import c03
 
 UNDECIDED = 'that overlapped tail bytes are accumulated exactly once (a value property of masks/blends); the GF arithmetic of the kernels'
@@ -92,4 +92,5 @@ def main(tier):
     check_mul_guard(rep)
     provenance.check_undef(rep, {'ec_mad', 'ec_mul'}, 'MAD', 37)
     provenance.check_kwidth(rep, {'ec_mad', 'ec_mul'}, 'MAD', 37)
+    gftype.check(rep, {'ec_mad', 'ec_mul'}, 'MAD', 37)
     return rep.finish()
